@@ -209,13 +209,20 @@ pub fn oracle(req: &Req, got: &Resp) -> Result<(), String> {
             let (p, q) = (need!(ptab(&a[0])), need!(ptab(&a[1])));
             if !p.is_torsion_free() || !q.is_torsion_free() { return if rej { Ok(()) } else { Err("SubgroupPoint accepted a point with torsion".into()) }; }
             let s = need!(can(&a[2]));
-            if rej || b.len() != 32 * 14 + 1 { return Err(format!("gp.subgroup_ops: {}", got.short())); }
+            if rej || b.len() != 32 * 38 + 1 { return Err(format!("gp.subgroup_ops: {}", got.short())); }
             let ps = p.mul(&s.0);
-            let want = [p.add(&q), p.sub(&q), p.neg(), ps, ps, p.add(&q), p.sub(&q), ps, p.dbl(), p.add(&q), p.add(&q), p.sub(&q), p.add(&q), p.sub(&q)];
+            let (pq, pmq) = (p.add(&q), p.sub(&q));
+            let mut want = vec![];
+            want.extend(std::iter::repeat(pq.clone()).take(6));
+            want.extend(std::iter::repeat(pmq.clone()).take(6));
+            want.extend(std::iter::repeat(ps).take(10));
+            want.extend([p.neg(), p.dbl(), pq.clone(), pq.clone()]);
+            want.extend(std::iter::repeat(pq).take(6));
+            want.extend(std::iter::repeat(pmq).take(6));
             for (i, w) in want.iter().enumerate() {
-                if b[32 * i..32 * i + 32] != w.compress()[..] { return Err(format!("SubgroupPoint operator result {} differs from the Edwards model", i)); }
+                if b[32 * i..32 * i + 32] != w.compress()[..] { return Err(format!("SubgroupPoint operator result {} (6 add forms, 6 sub forms, 10 mul forms, neg, double, 2 sums, 6+6 mixed Edwards/Subgroup forms) differs from the Edwards model", i)); }
             }
-            if b[448] != p.is_identity() as u8 { return Err("SubgroupPoint::is_identity".into()); }
+            if b[32 * 38] != p.is_identity() as u8 { return Err("SubgroupPoint::is_identity".into()); }
             Ok(())
         }
         _ => Err("no oracle".into()),
